@@ -1183,11 +1183,14 @@ class Gen:
         n = r.choice([1, 2, 3, self.nrows_max])
         keys = ["id", "k", "s", "v w"]
         items = []
+        numeric_last = fmt == "lod_csv" and r.random() < 0.5
         for i in range(n):
             d = {}
             for k in keys:
                 if fmt == "lod_csv":
                     d[k] = r.choice(self.strings(enc) + ["1", "2.5", ""]) if k != "id" else str(i * 3 + 1)
+                    if k == "v w" and numeric_last:
+                        d[k] = str(r.choice([0, 7, 42, 100]))
                 else:
                     if k != "id" and r.random() < 0.25:
                         continue
@@ -1423,6 +1426,10 @@ class Gen:
             if fmt == "lod_csv" and r.random() < 0.5 and info["opts"].get("header") is not False \
                     and "id" in (lit.get("keys") or keys):
                 lit["types"] = {"id": r.choice(["int", "float"])}
+            if fmt == "lod_csv" and r.random() < 0.6 and info["opts"].get("header") is not False \
+                    and "v w" in (lit.get("keys") or keys) \
+                    and all(str(x.get("v w", "")).isdigit() for x in doc["items"]):
+                lit.setdefault("types", {})["v w"] = r.choice(["int", "float"])
         elif fmt == "geojson":
             keys = list(dict.fromkeys(k for f in doc["features"] for k in f["properties"]))
             if keys and r.random() < 0.8:
